@@ -21,7 +21,7 @@ Theorem C04_kill_terminates : forall pr b,
   k_returns r = true /\
   (0 <= k_budget r <= Z.max (kp_keepalive gen_kill_params)
         (match kp_rpc_deadline gen_kill_params with Some d => d | None => 0 end + kp_grace gen_kill_params))%Z /\
-  (b <> NeverStarted -> k_exited r = true) /\
+  (b <> NeverStarted -> b <> LaunchFailed -> k_exited r = true) /\
   (k_clean_exit r = true -> k_forced r = false) /\
   ((b = ExitsAtOnce \/ b = ExitsAfterDelay) -> k_forced r = false /\ k_clean_exit r = true) /\
   ((b = Ignores \/ b = Frozen \/ b = FailedHandshake) -> k_forced r = true).
